@@ -61,7 +61,7 @@ func TestMakeSeeds(t *testing.T) {
 		for i := 0; i < 6; i++ {
 			blk(c, 1)
 		}
-		write(t, dir, "kf-zero-forecast-restart.json", c)
+		write(t, dir, "fixed-zero-forecast-restart.json", c)
 	}
 
 	// 2. witness (known finding short forecast, minimal): one halt of 200 days in block 6; cycle 4
@@ -77,7 +77,7 @@ func TestMakeSeeds(t *testing.T) {
 		for h := 7; h <= 12; h++ {
 			blk(c, 1)
 		}
-		write(t, dir, "kf-short-forecast.json", c)
+		write(t, dir, "fixed-short-forecast.json", c)
 	}
 
 	// 3. witness (same finding, devnet reward options verbatim): 149 blocks at 17 s, block 150 after a
@@ -95,7 +95,7 @@ func TestMakeSeeds(t *testing.T) {
 		for h := 151; h <= 310; h++ {
 			blk(c, 17)
 		}
-		write(t, dir, "kf-short-forecast-devnet-halt.json", c)
+		write(t, dir, "fixed-short-forecast-devnet-halt.json", c)
 	}
 
 	// 4. regression (must pass): cycles of 3 blocks, delegations, an absent signer, reward withdrawals
